@@ -81,6 +81,9 @@ pub open spec fn materialized(g: HeapGhost, p: GcPtr) -> HeapGhost {
 /// decrements are genuine obligations (`requires a >= b`): an underflow is a failed precondition.
 #[verifier::external_body]
 pub fn counter_add(a: usize, b: usize) -> (r: usize) ensures r == a + b { a + b }
+/// X-unwind: the value "returned" by an unwinding exit (never observed)
+#[verifier::external_body]
+pub fn unwound<T>() -> T { unimplemented!() }
 pub fn counter_sub(a: usize, b: usize) -> (r: usize) requires a >= b ensures r == a - b { a - b }
 
 pub struct Metrics {
@@ -133,6 +136,7 @@ pub struct Context {
     pub gray_again: Vec<GcPtr>,
     pub heap: Heap,
     pub hist: Ghost<Seq<Phase>>,      // shim-owned: phases entered, appended only by `switch` / `enter`
+    pub unwinding: Ghost<bool>,       // shim-owned: set when an X-unwind variant takes its unwinding exit
 }
 
 impl Context {
@@ -141,7 +145,7 @@ impl Context {
             root_needs_trace: self.root_needs_trace, gray: self.gray@, gray_again: self.gray_again@, m: self.metrics@,
             dropped: self.heap.g@.dropped, freed: self.heap.g@.freed, edges: self.heap.g@.edges, root_edges: self.heap.g@.root_edges,
             pending: self.heap.g@.pending, stack: self.heap.g@.stack, wstack: self.heap.g@.wstack, hist: self.hist@,
-            mutated: self.heap.g@.mutated }
+            mutated: self.heap.g@.mutated, unwinding: self.unwinding@ }
     }
 }
 
